@@ -215,7 +215,7 @@ PROPS["C11"] = {
 }
 
 PROPS["C14"] = {
-    "theorem_modules": ["Sidetree.Props.C14"],
+    "theorem_modules": ["Sidetree.Props.C14", "Sidetree.Props.C14General"],
     "prescribes": "Sidetree.PatchBuild.fromDocument + Sidetree.Composer.applyPatches (Props.C14)",
     "obligations": [
         {"name": "C14_actionConfig", "facts": ["actionConfig"]},
@@ -232,7 +232,7 @@ PROPS["C14"] = {
             "non-objects). Compared: PatchesFromDocument result (patch list as values), validation verdict of every produced patch, Bytes()/FromBytes round trip with accessor agreement, "
             "and the document obtained by applying the patches to {}. Non-trivial = patches produced; distinct = distinct document text.",
     "technique": "Lean 4 theorems (document -> patches -> document round trip; action table by decide) + differential correspondence",
-    "level_text": "Proved in Lean: for every document in the quantifier, applying fromDocument's patches to the empty document succeeds and gives a document with the same members; documents "
+    "level_text": "Proved in Lean (Props/C14General.lean, document_roundtrip): for EVERY document in the quantifier - no id; keys, services and also-known-as, where present, non-empty lists of the right shape; any number of further members with ordinary names and arbitrary JSON values; unique names; any member order - PatchesFromDocument succeeds and applying its patches to the empty document with the composer (patch-library model included) yields a document with exactly the same members. Proved in Lean: for every document in the quantifier, applying fromDocument's patches to the empty document succeeds and gives a document with the same members; documents "
                   "with an id are refused; a value is acceptable as a patch iff it has a supported action and that action's value member (table tied to patch.go by an obligation). "
                   "The bytes round trip and 'constructed patches validate' rest on the correspondence stream (Go's encoding/json is not modelled beyond values).",
     "level_note": "Trusted: Lean kernel; extractor; harness. Member names with JSON-pointer or quoting metacharacters are outside the quantifier (the driver answers out-of-domain).",
